@@ -100,6 +100,13 @@ func c05Oracle(p *Plan) *Verdict {
 	}
 	b, o := st.Backend[0], st.Outcome
 	v.Nontrivial = true
+	if rc.Backend.Resp.StrayHTTPTrailer {
+		// a real HTTP trailer from a Connect-unary backend has no defined place: wherever it ends up, the handler's
+		// Trailer- headers must still arrive
+		v.probe("stray-http-trailer")
+		delete(o.Headers, strayTrailerKey)
+		delete(o.Trailers, strayTrailerKey)
+	}
 	if d := diffMeta(metaMultimap(rc.Client.Headers), b.AppHeaders); d != "" {
 		v.violate("request-headers", facts, "request metadata changed on the way to the backend: %s", d)
 	}
